@@ -38,8 +38,11 @@ def main():
     rc, out = sh('git -C /repo worktree add --detach -q %s HEAD' % wt)
     assert rc == 0, out
     os.makedirs(vf + '/evidence')
-    for f in ('testdata', 'known_findings.json', 'bin', 'MANIFEST.json', 'properties.jsonl'):
-        os.symlink('/verif/' + f, vf + '/' + f)
+    # a frozen copy of everything the analyser reads from the verification directory, so that
+    # edits to /verif while this runs do not change verdicts half-way
+    shutil.copytree('/verif/testdata', vf + '/testdata')
+    shutil.copy('/verif/known_findings.json', vf + '/known_findings.json')
+    os.makedirs(vf + '/bin'); shutil.copy('/verif/bin/goyacc', vf + '/bin/goyacc')
     try:
         for s in seeds:
             d = '/verif/seeded/' + s
